@@ -16,6 +16,9 @@
 #include <amgcl/mpi/distributed_matrix.hpp>
 #include <amgcl/mpi/inner_product.hpp>
 #include <limits>
+#ifdef _OPENMP
+#include <omp.h>
+#endif
 #include <cstring>
 
 using vq::Tok; using vq::show;
@@ -253,6 +256,23 @@ MOP(gersh) {
     long sc = t.i(); auto A = t.crsT<double>(); Parts p = parts(t);
     auto D = dist(*A, p, p);
     double r = sc ? amgcl::backend::spectral_radius<true>(*D, 0) : amgcl::backend::spectral_radius<false>(*D, 0);
+    return show(r);
+}
+
+// gersht scale nt A parts : the same with nt OpenMP threads on every rank (per-thread maxima combined in
+// the critical section, then Allreduce(MAX))
+MOP(gersht) {
+    long sc = t.i(); long nt = t.i(); auto A = t.crsT<double>(); Parts p = parts(t);
+    if (nt < 1) throw std::runtime_error("thread count");
+    auto D = dist(*A, p, p);
+#ifdef _OPENMP
+    int old_nt = omp_get_max_threads(), old_dyn = omp_get_dynamic();
+    omp_set_dynamic(0); omp_set_num_threads((int)nt);
+#endif
+    double r = sc ? amgcl::backend::spectral_radius<true>(*D, 0) : amgcl::backend::spectral_radius<false>(*D, 0);
+#ifdef _OPENMP
+    omp_set_num_threads(old_nt); omp_set_dynamic(old_dyn);
+#endif
     return show(r);
 }
 
